@@ -152,7 +152,7 @@ impl Prop for C17 {
         "case = generated multi-file project (every item kind x package depth 1-3 x references in every position of other files). Oracle: for each file the item symbol's get_qualified_name() == package + '.' + name == Aidl::get_key() == the key of the model; for every type symbol in any file that the reference validator resolves (through an import) to a project item, the same string as that item's symbol; members Owner::member; imports / package their dotted names; get_name() of item, member, named argument, enum element = the identifier in the model. Non-trivial = project with >= 1 cross-file reference that resolves to an item; distinct by project text.".into()
     }
     fn random_cases(&self, tier: Tier) -> u64 {
-        tier.pick(8_000, 200_000)
+        tier.pick(16_000, 200_000)
     }
     fn max_bytes(&self) -> usize {
         3000
